@@ -72,6 +72,32 @@ GPOS4:
 	base C: @500,1000 @500,-1000;
 `
 
+// extraBlocks: more lookups in the documented syntax: several subtables per
+// lookup (also class-based ones that define their classes anew), all lookup
+// flags, strings with escapes (meaningful for fonts that map the characters).
+var extraBlocks = []string{
+	"GSUB1: A->B ||\n\tC->D, E->F",
+	"GSUB2: A -> \"AB\" ||\n\tB -> \"CD\"",
+	"GSUB3: A -> [ \"BC\" ] ||\n\tB -> [ \"DE\" ]",
+	"GSUB4: A B -> C ||\n\tD E -> F",
+	"GSUB4: -ligs A B -> C",
+	"GSUB1: -marks -ligs -base A->B",
+	"GSUB2: -base -ligs A -> \"BC\"",
+	"GSUB6:\n\tinputclass :i1: = [A B]\n\tlookaheadclass :l1: = [C D]\n\t/A B/ | :i1: | :l1: -> 1@0 ||\n\tinputclass :i1: = [E F]\n\tlookaheadclass :l1: = [G H]\n\tlookaheadclass :l2: = [I]\n\t/E F/ | :i1: | :l1: :l2: -> 1@0",
+	"GSUB6:\n\tbacktrackclass :b1: = [A]\n\tinputclass :i1: = [B]\n\tlookaheadclass :l1: = [C D]\n\t/B/ :b1: | :i1: | :l1: -> 1@0 ||\n\tbacktrackclass :b1: = [K]\n\tinputclass :i1: = [E F]\n\tlookaheadclass :l1: = [G H]\n\tlookaheadclass :l2: = [I]\n\t/E F/ :b1: | :i1: | :l2: :l1: -> 1@0",
+	"GSUB6:\n\tbacktrackclass :b1: = [A]\n\tinputclass :i1: = [B]\n\tlookaheadclass :l1: = [C D]\n\t/B/ :b1: | :i1: | :l1: -> 1@0 ||\n\tbacktrackclass :bb: = [K]\n\tinputclass :ii: = [E F]\n\tlookaheadclass :m1: = [G H]\n\tlookaheadclass :m2: = [I]\n\t/E F/ :bb: | :ii: | :m2: :m1: -> 1@0 ||\n\tinputclass :x: = [L]\n\tlookaheadclass :y: = [M N]\n\t/L/ | :x: | :y: -> 1@0",
+	"GSUB5:\n\tclass :a: = [A B]\n\t/A/ :a: :a: -> 1@0 ||\n\tclass :b: = [C D]\n\tclass :c: = [E]\n\t/C/ :b: :c: -> 1@1",
+	"GSUB6:\n\tA B C | D | E -> 1@0, \"KLM\" | D | \"NO\" -> 1@0",
+	"GSUB1: \"\\\\\" -> A, A -> \"\\\"\"",
+	"GSUB2: B -> \"A\\\\\"",
+	"GSUB4: \"A\\\\\" -> B, \"\\\\\\\\\" -> C",
+	"GSUB6:\n\tA \"B\\\\\" | C | D -> 1@0",
+	"GPOS4:\n\tmark M: 0@1,1;\n\tbase A: @2,2 ||\n\tmark N: 0@3,3;\n\tbase B: @4,4",
+	"GPOS1: A -> x+1 y-2 dx+3",
+	"GPOS2: -base A V -> dx-100",
+	"GPOS2: -marks -ligs T E -> y+100 dx-50 & y-100",
+}
+
 var (
 	fontNamed   *sfnt.Font // CFF, glyph names A..Z, cmap
 	fontGlyf    *sfnt.Font // Go Regular: TrueType with post names and cmap
@@ -332,6 +358,7 @@ func genText(c *wk.Case) (font *sfnt.Font, fontName, text, kind string) {
 			}
 			blocks = append(blocks, strings.Join(cur, "\n"))
 		}
+		blocks = append(blocks, extraBlocks...)
 		n := t.Range(1, 4)
 		var sel []string
 		for i := 0; i < n; i++ {
@@ -342,6 +369,17 @@ func genText(c *wk.Case) (font *sfnt.Font, fontName, text, kind string) {
 	case 1:
 		// Explain of generated lookups
 		g := &simgen.LookupGen{T: t, N: min(font.NumGlyphs(), 60)}
+		if best, _ := font.CMapTable.GetBest(); best != nil {
+			// glyphs whose characters need escaping or are special in the notation
+			for _, r := range []rune{'\\', '"', 'n', 't', '-', ']', 'A', 'f'} {
+				if gid := best.Lookup(r); gid != 0 {
+					g.Hot = append(g.Hot, gid)
+				}
+			}
+		}
+		if t.Chance(1, 3) {
+			g.CtxFormat = 1 + t.Draw(3) // several subtables of one format in a lookup
+		}
 		gsub := t.Chance(1, 2)
 		f2 := font.Clone()
 		bigLig := gsub && t.Chance(1, 3)
@@ -371,7 +409,11 @@ func genText(c *wk.Case) (font *sfnt.Font, fontName, text, kind string) {
 				for i := t.Range(1, 3); i > 0; i-- {
 					tp := uint16(t.Range(1, 6))
 					g.NumLookups = 3
-					info.LookupList = append(info.LookupList, &gtab.LookupTable{Meta: &gtab.LookupMetaInfo{LookupType: tp}, Subtables: []gtab.Subtable{g.GsubSubtable(tp)}})
+					lt := &gtab.LookupTable{Meta: &gtab.LookupMetaInfo{LookupType: tp}}
+					for k := 1 + t.Weighted(3, 2, 1); k > 0; k-- {
+						lt.Subtables = append(lt.Subtables, g.GsubSubtable(tp))
+					}
+					info.LookupList = append(info.LookupList, lt)
 				}
 				f2.Gsub = info
 				text = builder.ExplainGsub(f2)
@@ -379,7 +421,11 @@ func genText(c *wk.Case) (font *sfnt.Font, fontName, text, kind string) {
 				info := &gtab.Info{}
 				for i := t.Range(1, 3); i > 0; i-- {
 					tp := []uint16{1, 2, 4}[t.Draw(3)]
-					info.LookupList = append(info.LookupList, &gtab.LookupTable{Meta: &gtab.LookupMetaInfo{LookupType: tp}, Subtables: []gtab.Subtable{g.GposSubtable(tp)}})
+					lt := &gtab.LookupTable{Meta: &gtab.LookupMetaInfo{LookupType: tp}}
+					for k := 1 + t.Weighted(3, 2, 1); k > 0; k-- {
+						lt.Subtables = append(lt.Subtables, g.GposSubtable(tp))
+					}
+					info.LookupList = append(info.LookupList, lt)
 				}
 				f2.Gpos = info
 				text = strings.Join(builder.ExplainGpos(f2), "\n")
@@ -442,6 +488,13 @@ func run(c *wk.Case) {
 	if out.bubbleMsg != "" {
 		c.Fail("goroutine-leak", "bubble", "Parse returned (err=%v) and the bubble reports: %s", out.err, out.bubbleMsg)
 	}
+	if out.err != nil && (kind == "explain" || kind == "explain-ligatures") {
+		// Not judged: whether generated lookups are "expressible" would have
+		// to be taken on trust from the generator (shapes the encoder
+		// normalises, glyphs whose names need quoting, ...).  The round trip
+		// is judged below for lookup lists that came out of Parse.
+		c.Count("explain_output_of_generated_lookups_rejected_(not_judged)", 1)
+	}
 	if out.err != nil {
 		c.Count("parse_errors", 1)
 		nl := strings.Count(text, "\n") + 1
@@ -489,12 +542,40 @@ func run(c *wk.Case) {
 		c.Fail("goroutine-leak", "Parse(Explain)/"+strings.Join(dedupe(out2.leaks), "+"), "re-parsing the explained text left goroutines blocked: %v", out2.leaks)
 	}
 	if out2.err != nil {
-		c.Fail("notation-round-trip", "reparse-error", "the description produced by Explain is rejected by Parse: %v\n--- description\n%s", out2.err, text2)
+		c.Fail("notation-round-trip", "reparse-error/"+errClass(text2, out2.err), "the description produced by Explain is rejected by Parse: %v\n--- description\n%s", out2.err, text2)
 	}
 	if d := simgen.DeepDiff(out.lookups, out2.lookups, 0, false); d != "" {
 		c.Fail("notation-round-trip", "different-lookups", "Parse(Explain(L)) differs from L: %s\n--- description\n%s", d, text2)
 	}
 	c.Count("notation_round_trips_(incidental)", 1)
+}
+
+var quoted = regexp.MustCompile(`"[^"]*"|[0-9]+`)
+
+// errClass summarises (kind of the lookup in which the error occurs, error
+// message without line numbers and quoted tokens).
+func errClass(text string, err error) string {
+	msg := err.Error()
+	line := 0
+	fmt.Sscan(msg, &line)
+	kind := "?"
+	ll := strings.Split(text, "\n")
+	for i := 0; i < len(ll) && i < line; i++ {
+		if strings.HasPrefix(ll[i], "GSUB") || strings.HasPrefix(ll[i], "GPOS") {
+			kind = ll[i][:5]
+		}
+	}
+	if i := strings.Index(msg, ": "); i >= 0 {
+		msg = msg[i+2:]
+	}
+	if i := strings.Index(msg, ": "); i >= 0 && i < 12 {
+		msg = msg[i+2:]
+	}
+	msg = quoted.ReplaceAllString(msg, "_")
+	if len(msg) > 40 {
+		msg = msg[:40]
+	}
+	return kind + "/" + msg
 }
 
 func dedupe(s []string) []string {
